@@ -568,3 +568,26 @@ def rule_dtypeflow(R, modules=None):
         yield ob(R, "mir_eval/", "dtype-flow:census", True, "%d stores into input-typed buffers examined" % n)
 
     return rule
+
+
+def path_shape_equalities(pc):
+    """[(kept, replaced)] for every `a.shape != b.shape` test that is false (or `==` test that is true) on the path: a
+    validation guard has established that the two parameters have one shape, so either spelling denotes the same value.
+    The reference-side spelling is kept."""
+    out = []
+    for c, pol in symeval.pc_conds(pc):
+        if c.op != "cmp" or not ((c.a[0] == "!=" and not pol) or (c.a[0] == "==" and pol)):
+            continue
+        x, y = c.a[1], c.a[2]
+        if all(z.op == "attr" and z.a[1] == "shape" and z.a[0].op == "param" for z in (x, y)) and x is not y:
+            if roles(y) == {"R"} and roles(x) != {"R"}:
+                x, y = y, x
+            out.append((x, y))
+    return out
+
+
+def rewrite_equal(t, pairs):
+    if not pairs:
+        return t
+    m = {b.id: a for a, b in pairs}
+    return tm.rebuild(t, lambda z: m.get(z.id))
